@@ -62,3 +62,18 @@ Definition run_file_full (cfg : config) (work : bytes) (env : list (bytes * byte
   let r := run_archive cfg work env a in
   let ch := change_of a (s_updates (r_final r)) in
   {| f_run := match ch with UpdateError => with_update_failure r | _ => r end; f_change := ch |}.
+
+(* ---- what an update does to the bytes of entries it does not touch.  [tail] is the text of
+   the file from the marker line of some entry to the end, and none of the entries in it is
+   updated: "the bytes of untouched entries survive" would make it a suffix of the written file. *)
+Definition untouched_tail (file : bytes) (U : list (bytes * bytes)) (tail : bytes) : Prop :=
+  exists pre fs1,
+    file = pre ++ tail
+    /\ comment (parse tail) = []
+    /\ files (parse file) = fs1 ++ files (parse tail)
+    /\ files (parse tail) <> []
+    /\ forall n d, In (n, d) (files (parse tail)) -> assoc_get U n = None.
+
+Definition update_keeps_untouched_bytes_statement : Prop :=
+  forall file U d tail,
+    change_of (parse file) U = Rewritten d -> untouched_tail file U tail -> has_suffix tail d = true.
